@@ -15,7 +15,7 @@ import (
 // C01 — message round-trip fidelity (libpair + independent tap decode).
 
 func init() {
-	register(&Prop{ID: "C01", Run: runC01, Quick: 6000, Thorough: 400000, Level: "exploration"})
+	register(&Prop{ID: "C01", Run: runC01, Enum: enumC01, Quick: 6000, Thorough: 400000, Level: "exploration"})
 }
 
 type sentMsg struct {
@@ -177,8 +177,21 @@ func firstDiff(a, b []byte) int {
 	return -1
 }
 
+// enumC01: the first run of every worker process is the "early second pair"
+// scenario (forced first word), which looks for state that one handshake leaves
+// behind in the process and that only hurts connections that are already open:
+// later runs of the same process cannot see such state change any more.
+func enumC01(tier string) [][]uint32 {
+	var out [][]uint32
+	for i := 0; i < 32; i++ {
+		out = append(out, []uint32{1})
+	}
+	return out
+}
+
 func runC01(r *Run) {
 	t := r.Tape
+	earlySecond := t.Draw(50) == 1
 	o := PairOpts{CMode: modes[t.Draw(3)], SMode: modes[t.Draw(3)]}
 	o.CThresh = threshChoices[t.Draw(len(threshChoices))]
 	o.SThresh = threshChoices[t.Draw(len(threshChoices))]
@@ -209,6 +222,17 @@ func runC01(r *Run) {
 		}
 	}
 	_ = maxLen
+	if earlySecond {
+		// both sides keep their compression context; every message repeats the same
+		// content, so each one after the first refers back to its predecessors
+		o = PairOpts{CMode: websocket.CompressionContextTakeover, SMode: websocket.CompressionContextTakeover}
+		p := Payload{Kind: 3, Len: 900, Seed: 99}
+		c2s, s2c = nil, nil
+		for i := 0; i < 4; i++ {
+			c2s = append(c2s, sentMsg{Typ: websocket.MessageBinary, P: p, Data: p.Bytes()})
+			s2c = append(s2c, sentMsg{Typ: websocket.MessageText, P: p, Data: p.Bytes()})
+		}
+	}
 	cli, srv, ce, se, err := r.LibPair("p0", o)
 	if err != nil {
 		r.Violate("handshake-failed", "libpair", "libpair handshake failed: %v", err)
@@ -303,6 +327,48 @@ func runC01(r *Run) {
 				d.got++
 				r.S.ALog("r."+d.name, "msg %d len %d", i, len(got))
 			}
+		})
+	}
+	// a second pair of endpoints in the same process, negotiated (with other modes)
+	// while the first pair is exchanging messages: nothing of its handshake or
+	// traffic may affect the first pair
+	if t.Pct(30) || earlySecond {
+		o2 := PairOpts{CMode: modes[t.Draw(3)], SMode: modes[t.Draw(3)]}
+		after := t.Draw(20)
+		if earlySecond {
+			// a client that asks for no context takeover, a server that would keep it
+			o2 = PairOpts{CMode: websocket.CompressionNoContextTakeover, SMode: websocket.CompressionContextTakeover}
+			after = 2
+		}
+		r.D("second_pair", fmt.Sprintf("%+v after %d steps", o2, after))
+		r.S.Go("pair2", func() {
+			for k := 0; k < after; k++ {
+				r.S.Park("a.pair2")
+			}
+			cli2, srv2, _, _, err := r.LibPair("p1", o2)
+			if err != nil {
+				r.Violate("handshake-failed", "libpair", "second pair: %v", err)
+				return
+			}
+			defer cli2.CloseNow()
+			defer srv2.CloseNow()
+			bg := context.Background()
+			for k := 0; k < 3; k++ {
+				m := Payload{Kind: 3, Len: 700, Seed: 4242}.Bytes() // the same content every time: back-references
+				for _, d := range [][2]*websocket.Conn{{cli2, srv2}, {srv2, cli2}} {
+					r.S.Park("a.pair2.msg")
+					if err := d[0].Write(bg, websocket.MessageBinary, m); err != nil {
+						r.Violate("write-error", "write", "second pair: write failed without faults: %v", err)
+						return
+					}
+					_, got, err := d[1].Read(bg)
+					if err != nil || !bytes.Equal(got, m) {
+						r.Violate("read-error", "read", "second pair: message %d not received intact: %d bytes, err %v", k, len(got), err)
+						return
+					}
+				}
+			}
+			r.S.Count("probe.second-pair")
 		})
 	}
 	// an observer that looks at the writers' buffers while their calls are in progress
